@@ -448,17 +448,27 @@ class Master(loader.Loader):
         """Run scheduler first time and update scheduled data."""
         placement = self.cell.schedule()
 
+        # We run two loops. First - remove all old placement, before creating
+        # any new ones. This ensures that in the event of loop interruption
+        # for any reason (like Zookeeper connection lost or master restart)
+        # there are no duplicate placements.
+        current = dict()
         for servername, server in self.cell.members().items():
             placement_node = z.path.placement(servername)
             self.backend.ensure_exists(placement_node)
 
-            current = set(self.backend.list(placement_node))
+            current[servername] = set(self.backend.list(placement_node))
             correct = set(server.apps.keys())
 
-            for app in current - correct:
+            for app in current[servername] - correct:
                 _LOGGER.info('Unscheduling: %s - %s', servername, app)
                 self.backend.delete(os.path.join(placement_node, app))
-            for app in correct - current:
+
+        for servername, server in self.cell.members().items():
+            placement_node = z.path.placement(servername)
+            correct = set(server.apps.keys())
+
+            for app in correct - current[servername]:
                 _LOGGER.info('Scheduling: %s - %s,%s',
                              servername, app, self.cell.apps[app].identity)
 
